@@ -4,7 +4,9 @@
    sumsq = squared l2 norm, lsum = sum of the entries (Model/Prox.v, instantiated at R). *)
 From Coq Require Import List Reals QArith Qreals Bool.
 From TLV Require Import Base.Ops Model.Prox Proofs.ProxProofs Proofs.ProxProofsHard Proofs.ProxProofsRefute
-  Proofs.ProxProofsSimplex Proofs.ProxProofsMono Proofs.ProxProofsIso Proofs.ProxTransfer.
+  Proofs.ProxProofsSimplex Proofs.ProxProofsMono Proofs.ProxProofsIso Proofs.ProxTransfer
+  Proofs.ProxProofsSmooth Proofs.ProxProofsFirm Proofs.ProxProofsNormSp Proofs.ProxProofsUni
+  Model.ProxDispatch Proofs.ProxProofsDispatch.
 Import ListNotations.
 Open Scope R_scope.
 
@@ -61,6 +63,19 @@ Theorem C12_smooth_optimal : forall t x v z, 0 <= t -> sm_apply Rops t 0 x = v -
   smooth_obj t x v <= smooth_obj t z v.
 Proof. exact smooth_optimal. Qed.
 Print Assumptions C12_smooth_optimal.
+
+(* the model's executable elimination (forward sweep + back substitution) solves the coded system for EVERY right-hand side and
+   t >= 0, the solution is unique, so any exact solver's answer is the model's answer and the minimiser *)
+Theorem C12_smooth_solve_correct : forall t v, 0 <= t -> sm_apply Rops t 0 (smoothness_solve Rops t v) = v.
+Proof. exact smoothness_solve_correct. Qed.
+Print Assumptions C12_smooth_solve_correct.
+Theorem C12_smooth_solve_optimal : forall t v z, 0 <= t -> length z = length v ->
+  smooth_obj t (smoothness_solve Rops t v) v <= smooth_obj t z v.
+Proof. exact smoothness_solve_optimal. Qed.
+Print Assumptions C12_smooth_solve_optimal.
+Theorem C12_smooth_solution_unique : forall t x x' v, 0 <= t -> sm_apply Rops t 0 x = v -> sm_apply Rops t 0 x' = v -> x = x'.
+Proof. exact smooth_solution_unique. Qed.
+Print Assumptions C12_smooth_solution_unique.
 
 (* ---- hard thresholding: at most k non-zeros, a nearest vector with at most k non-zeros, idempotent;
    and the same for ANY output accepted by the relational checker valid_ht (tie-breaking free) *)
@@ -151,6 +166,12 @@ Theorem C12_normalized_sparsity_feasible : forall s k v, 0 < s -> s * s = sumsq 
 Proof. exact normalized_sparsity_feasible. Qed.
 Print Assumptions C12_normalized_sparsity_feasible.
 
+Theorem C12_normalized_sparsity_nearest : forall s k v z, 0 < s -> s * s = sumsq Rops (hard_thresholding Rops k v) ->
+  length z = length v -> (nnzR z <= k)%nat -> sumsq Rops z = 1 ->
+  dist2 Rops (normalized_sparsity_with Rops s k v) v <= dist2 Rops z v.
+Proof. exact normalized_sparsity_nearest. Qed.
+Print Assumptions C12_normalized_sparsity_nearest.
+
 (* ---- generic: an optimal projection onto a convex set is firmly non-expansive *)
 Theorem C12_firmly_nonexpansive : forall n (C : list R -> Prop) (P : list R -> list R),
   convex_set n C ->
@@ -158,6 +179,29 @@ Theorem C12_firmly_nonexpansive : forall n (C : list R -> Prop) (P : list R -> l
   forall u v, length u = n -> length v = n -> dist2 Rops (P u) (P v) <= dotd (P u) (P v) u v.
 Proof. exact firmly_nonexpansive. Qed.
 Print Assumptions C12_firmly_nonexpansive.
+
+(* ---- generic: the proximal operator of a convex function is firmly non-expansive; the penalised operators *)
+Theorem C12_prox_firmly_nonexpansive : forall n (f : list R -> R) (P : list R -> list R),
+  convex_fun n f ->
+  (forall v, length v = n -> length (P v) = n /\ forall w, length w = n -> f (P v) + dist2 Rops (P v) v / 2 <= f w + dist2 Rops w v / 2) ->
+  forall u v, length u = n -> length v = n -> dist2 Rops (P u) (P v) <= dotd (P u) (P v) u v.
+Proof. exact prox_firmly_nonexpansive. Qed.
+Print Assumptions C12_prox_firmly_nonexpansive.
+Theorem C12_soft_firmly_nonexpansive : forall t u v, 0 <= t -> length u = length v ->
+  dist2 Rops (soft_thresholding Rops t u) (soft_thresholding Rops t v)
+  <= dotd (soft_thresholding Rops t u) (soft_thresholding Rops t v) u v.
+Proof. exact soft_firmly_nonexpansive. Qed.
+Print Assumptions C12_soft_firmly_nonexpansive.
+Theorem C12_l2sq_firmly_nonexpansive : forall t u v, 0 <= t -> length u = length v ->
+  dist2 Rops (l2_square_prox Rops t u) (l2_square_prox Rops t v)
+  <= dotd (l2_square_prox Rops t u) (l2_square_prox Rops t v) u v.
+Proof. exact l2sq_firmly_nonexpansive. Qed.
+Print Assumptions C12_l2sq_firmly_nonexpansive.
+Theorem C12_l2_firmly_nonexpansive : forall t u v, 0 <= t -> length u = length v ->
+  let P := fun w => l2_prox_with Rops (sqrt (sumsq Rops w)) t w in
+  dist2 Rops (P u) (P v) <= dotd (P u) (P v) u v.
+Proof. exact l2_firmly_nonexpansive. Qed.
+Print Assumptions C12_l2_firmly_nonexpansive.
 
 (* ---- executed instance = proved instance: the model run at Q (exact rationals, what the correspondence evaluates and compares
    with the implementation) and mapped into R equals the model at R on the mapped inputs (Paramcoq free theorems); hence the
@@ -199,6 +243,21 @@ Theorem C12_hard_exec_nearest : forall (k : nat) (v : list Q) (z : list R), leng
 Proof. exact hard_exec_nearest. Qed.
 Print Assumptions C12_hard_exec_nearest.
 
+(* ---- proximal_operator's decision logic (validate_constraints: dict / list / scalar keyword arguments registered in the code's
+   fixed order): the selected mode gets exactly the constraint and parameter registered for it - whatever the order in which
+   the keyword arguments are written - provided no other argument names that mode (the code raises otherwise); and the tensor
+   is returned unchanged (no constraint) when no argument names the mode *)
+Theorem C12_validate_selected : forall (P : Type) n order (specs : list (nat * cspec P)) c s p, (order < n)%nat ->
+  In (c, s) specs -> param_at s order = Some p ->
+  (forall c' s', In (c', s') specs -> param_at s' order <> None -> (c', s') = (c, s)) ->
+  validate n order specs = Some (c, p).
+Proof. exact @validate_selected. Qed.
+Print Assumptions C12_validate_selected.
+Theorem C12_validate_unconstrained : forall (P : Type) n order (specs : list (nat * cspec P)),
+  (forall c s, In (c, s) specs -> param_at s order = None) -> validate n order specs = @None (nat * P).
+Proof. exact @validate_unconstrained. Qed.
+Print Assumptions C12_validate_unconstrained.
+
 (* ---- deliberately unfixed operators: refutation (exact rational witness on the executed instance) + what holds *)
 Theorem C12_l1ball_refuted : exists (p : Q) (v : list Q),
   Qle_bool (l1n Qops v) p = true /\ (dist2 Qops v v < dist2 Qops (soft_sparsity_prox Qops p v) v)%Q.
@@ -224,6 +283,19 @@ Theorem C12_unimodal_refuted : exists (v : list Q),
 Proof. exact unimodal_refuted. Qed.
 Print Assumptions C12_unimodal_refuted.
 
+(* what does hold for unimodality_prox: the column assembled at a FLAGGED peak candidate m (v_m >= both monotone fits at m) rises
+   up to m and falls from m on; hence the coded single-column output is unimodal whenever the selected index is flagged
+   (it is not always: ties with the fill value select unflagged rows, e.g. [1,2] -> index 0) *)
+Theorem C12_uni_assemble_unimodal : forall v m, (m < length v)%nat ->
+  nth m (fst (uni_scores Rops v)) false = true -> unimodal_at m (uni_assemble Rops m v).
+Proof. exact uni_assemble_unimodal. Qed.
+Print Assumptions C12_uni_assemble_unimodal.
+Theorem C12_unimodal_feasible_partial : forall v, (uni_choice1 v < length v)%nat ->
+  nth (uni_choice1 v) (fst (uni_scores Rops v)) false = true ->
+  unimodalP (hd [] (unimodality_cols Rops [v])).
+Proof. exact unimodal_feasible_partial. Qed.
+Print Assumptions C12_unimodal_feasible_partial.
+
 (* ---- non-vacuity: the hypotheses are satisfiable and the model computes *)
 Example C12_nonvacuous_soft :
   soft_thresholding Qops (11#10)%Q [1; -2; (3#2)]%Q = [0; (-9#10); (2#5)]%Q /\
@@ -236,4 +308,17 @@ Example C12_nonvacuous_simplex :
   Qle_bool (13#100) (l1n Qops [(4#10); (-5#10); (1#10)]%Q) = true /\
   iso_cert Qops [3; -1; 2; 2; -5]%Q (monotonicity_prox Qops false [3; -1; 2; 2; -5]%Q) = true /\
   monotonicity_prox Qops false [3; -1; 2; 2; -5]%Q = [(1#5); (1#5); (1#5); (1#5); (1#5)]%Q.
+Proof. repeat split; vm_compute; reflexivity. Qed.
+Example C12_nonvacuous_round3 :
+  (let sc := uni_scores Qops [1; 2; 3]%Q in
+   let gmax := match snd sc with [] => 0%Q | x :: r => maxl Qops x r end in
+   let m := argmin Qops (uni_difference gmax sc) in (m, nth m (fst sc) false)) = (2%nat, true) /\
+  hd [] (unimodality_cols Qops [[1; 2; 3]%Q]) = [1; 2; 3]%Q /\
+  sm_apply Qops (3#1)%Q 0%Q (smoothness_solve Qops (3#1)%Q [1; -2; 5; 0]%Q) = [1; -2; 5; 0]%Q /\
+  normalized_sparsity_with Qops 5%Q 2 [3; -4; 1]%Q = [(3#5); (-4#5); 0]%Q.
+Proof. repeat split; vm_compute; reflexivity. Qed.
+Example C12_nonvacuous_dispatch :
+  validate 3 1 [(1%nat, CList [None; Some (1#1)%Q; Some (2#1)%Q]); (0%nat, CDict [(0%nat, 1%Q)])] = Some (1%nat, (1#1)%Q) /\
+  validate 3 0 [(1%nat, CList [None; Some (1#1)%Q; Some (2#1)%Q]); (0%nat, CDict [(0%nat, 1%Q)])] = Some (0%nat, 1%Q) /\
+  validate 2 1 [(11%nat, CDict [(0%nat, (3#1)%Q)])] = @None (nat * Q).
 Proof. repeat split; vm_compute; reflexivity. Qed.
